@@ -683,7 +683,20 @@ def run(index: RepoIndex, rep) -> None:
         pred_r = show(on[0].guard) if len(on) == 1 else None
         pred_t = show(formula_of(mt.returns[0].value_node)) \
             if len(mt.returns) == 1 and mt.returns[0].value_node is not None else None
-        rep.check(pred_r is not None and pred_r == pred_t, 'C12.R3', REWARD, name,
+        same = pred_r is not None and pred_r == pred_t
+        if not same and len(on) == 1 and mt.returns and \
+                all(r.value_node is not None for r in mt.returns):
+            # guard clauses (`if not inside: return False` / `return isinstance(..)`): the
+            # termination fires under the disjunction of (path condition and returned
+            # predicate); compared with the reward's condition as propositions
+            from ..guards import f_and, f_or, prop_equiv
+            ft = f_or(*[f_and(r.guard, formula_of(r.value_node)) for r in mt.returns])
+            try:
+                same = prop_equiv(on[0].guard, ft) is None
+            except AnalysisError:
+                same = False
+            pred_t = show(ft)
+        rep.check(same, 'C12.R3', REWARD, name,
                   mr.func.node.lineno, f'{pred_r}  vs  {pred_t}',
                   f'reward {name} pays under `{pred_r}` but terminating {name} fires under '
                   f'`{pred_t}`: reward and termination disagree', f'sibling {name}')
